@@ -59,6 +59,7 @@ fn main() {
             suites_sched::run_suite(&mut em, thorough, seed, false, false);
             suites_sched::run_gz_suite(&mut em, thorough);
             suites_sched::free_running(&mut em, thorough);
+            suites_sched::inline_waker(&mut em);
         }
         "C11" => {
             if shard0 {
